@@ -713,14 +713,34 @@ def run(ctx):
       break
     _emit(ctx, case, oracle(ctx, case, origin="lattice"))
 
+  collected = set()
+
   def orc(case):
     if ctx.time_left() <= 0:
       ctx.labels["inconclusive_time"] += 1
       return []
-    return oracle(ctx, case, origin="hyp")
+    out = []
+    for f in oracle(ctx, case, origin="hyp"):
+      if core.fkey(f[0], f[1]) in collected:
+        ctx.fail(f[0], f[1], case, f[2])     # shrunk in an earlier chunk
+      else:
+        out.append(f)
+    return out
 
-  n = (1600 if ctx.quick else 40000) // ctx.n + 1
-  core.hyp_run(ctx, case_strategy(ctx), orc, n, name="c12")
+  # Hypothesis in chunks, so that the run ends with the time budget instead of
+  # burning through a fixed example count (conversion speed varies 0.3-4 s)
+  total = (1600 if ctx.quick else 40000) // ctx.n + 1
+  chunk, k, rounds = 30, 0, 0
+  strat = case_strategy(ctx)
+  while total > 0 and ctx.time_left() > 3:
+    name = "c12.%d" % k
+    core.hyp_run(ctx, strat, orc, min(chunk, total), name=name)
+    rounds += ctx.info.pop("hyp_rounds_" + name, 0)
+    collected.update(ctx.failures.keys())
+    total -= chunk
+    k += 1
+  ctx.info["hyp_rounds_c12"] = rounds
+  ctx.info["hyp_chunks"] = k
 
 
 def replay(ctx, case):
